@@ -86,6 +86,7 @@ pub fn gen_case4(prop: &str, seed: u64, thorough: bool, rng: &mut Rng) -> Case {
         "C20" => {
             let mut cfg = base_cfg(rng, Profile::Damage, thorough);
             cfg.index_threads = cfg.index_threads.min(3);
+            cfg.crash_samples = if thorough { 0 } else { 12 }; // 0 = exhaustive damage enumeration
             cfg.faults.short_write_pct = *rng.pick(&[0u32, 10, 30]);
             cfg.faults.eintr_pct = *rng.pick(&[0u32, 5, 15]);
             cfg.faults.seed = rng.next_u64();
